@@ -455,14 +455,112 @@ def oracle_time(payload, info):
     return None
 
 
+
+def scen_subjects(rng, n):
+    """C12: producers, a late subscriber and an unsubscriber racing on the three subject kinds"""
+    out = []
+    i = 0
+    def drive(vals):
+        return "(drive a %s)" % " ".join("(0 (n %d))" % v for v in vals)
+    for kind, init in (("plain", ""), ("behavior", " 0"), ("replay", "")):
+        decl = "(subject a %s%s)" % (kind, init)
+        # a stable subscriber + two producers
+        out.append(("(conc C12-%d (pipe %s (sub (ref a) (react)) %s %s))" % (i, decl, drive([1, 2]), drive([11, 12])), (kind, "stable", [[1, 2], [11, 12]]))); i += 1
+        out.append(("(conc C12-%d (pipe %s (sub (ref a) (react)) (sub (ref a) (react)) %s %s %s))" % (i, decl, drive([1, 2, 3]), drive([11]), drive([21, 22])), (kind, "stable", [[1, 2, 3], [11], [21, 22]]))); i += 1
+        # a concurrent unsubscriber: per producer a gap-free prefix
+        out.append(("(conc C12-%d (pipe %s (sub (ref a) (react)) %s %s (unsub-after 0 0)))" % (i, decl, drive([1, 2, 3]), drive([11, 12])), (kind, "unsub", [[1, 2, 3], [11, 12]]))); i += 1
+        # a late subscriber racing one producer / two producers
+        out.append(("(conc C12-%d (pipe %s %s (sub-after 0 (ref a))))" % (i, decl, drive([1, 2, 3])), (kind, "late1", [[1, 2, 3]]))); i += 1
+        out.append(("(conc C12-%d (pipe %s %s %s (sub-after 0 (ref a))))" % (i, decl, drive([1, 2]), drive([11, 12])), (kind, "late", [[1, 2], [11, 12]]))); i += 1
+        out.append(("(conc C12-%d (pipe %s (hnext a 5) %s (sub-after 0 (ref a))))" % (i, decl, drive([1, 2])), (kind, "late1h", [[1, 2]]))); i += 1
+    return out
+
+
+def oracle_subjects(payload, info):
+    kind, mode, lists = info
+    d = parse_pipe(payload)
+    if d is None:
+        return "malformed record"
+    users = sorted({int(r[1:r.index(":")]) for tid, r, t in d["recs"] if re.match(r"s\d+:", r)})
+    allv = [str(v) for l in lists for v in l]
+    for u in users or [0]:
+        evs = user_events(d["recs"], u)
+        m = check_contract(evs)
+        if m:
+            return m
+        items = [e[1][1:] for e in evs if e[1][0] == "n"]
+        # no duplicates of producer items, per-producer contiguous block in order
+        for l in lists:
+            want = [str(v) for v in l]
+            got = [x for x in items if x in want]
+            if len(got) != len(set(got)):
+                return "%s %s: an item was delivered twice: %s" % (kind, mode, items)
+            # contiguous block of the producer's program
+            ok = any(got == want[a:a + len(got)] for a in range(len(want) + 1))
+            if not ok:
+                return "%s %s: items of one producer arrived with a gap or out of order: %s" % (kind, mode, got)
+            if mode == "stable" and got != want:
+                return "%s: a subscriber present throughout missed items: got %s of %s" % (kind, got, want)
+            if mode == "unsub" and got != want[:len(got)]:
+                return "%s: the unsubscribing observer did not get a prefix: %s" % (kind, got)
+            if mode.startswith("late") and kind == "plain" and got != want[len(want) - len(got):]:
+                return "plain subject: the late subscriber did not get a suffix: %s" % got
+        if mode.startswith("late") and kind == "replay":
+            if sorted(x for x in items if x in allv) != sorted(allv):
+                return "replay late subscriber: did not receive every item exactly once: %s" % items
+            if mode in ("late1", "late1h"):
+                pre = ["5"] if mode == "late1h" else []
+                if items != pre + allv:
+                    return "replay late subscriber: not in push order: %s" % items
+        if mode.startswith("late") and kind == "behavior":
+            # a value, then every later value with no gap (single producer)
+            if mode in ("late1", "late1h"):
+                vals = (["0"] if mode == "late1" else ["5"]) + allv
+                if not items:
+                    return "behavior late subscriber received nothing"
+                if items[0] not in vals:
+                    return "behavior late subscriber: foreign first value %s" % items[0]
+                k = vals.index(items[0])
+                if items != vals[k:]:
+                    return "behavior late subscriber: gap or duplicate after the first value: got %s, values were %s" % (items, vals)
+    return None
+
+
 CONC = {
     "C19": dict(model="obs", scen=scen_obs, oracle=oracle_obs, corr="Conc.Observer (lean/RxVerif/Conc/Observer.lean) vs src/observer.rs + src/internals/function_wrapper.rs"),
     "C18": dict(model="tovec", scen=scen_tovec, oracle=oracle_tovec, corr="Conc.ToVec (lean/RxVerif/Conc/ToVec.lean) vs src/operators/to_vec.rs"),
+    "C12": dict(model=None, scen=scen_subjects, oracle=oracle_subjects, corr="Conc.Subject / Conc.Replay / Conc.Behavior vs src/subjects/*.rs", info=True),
     "C09": dict(model=None, scen=scen_handoff, oracle=oracle_handoff, corr="Conc.Handoff vs src/operators/observe_on.rs, subscribe_on.rs", info=True),
     "C11": dict(model=None, scen=scen_merge, oracle=oracle_merge, corr="Conc.Sctl / Conc.TakeAmbZip vs stream_controller.rs, merge/zip/amb/take", info=True),
     "C15": dict(model=None, scen=scen_threads, oracle=oracle_threads, corr="Conc.Timed / Conc.Queue vs scheduler-based operators", info=True),
     "C16": dict(model=None, scen=scen_time, oracle=oracle_time, corr="Conc.Timed vs interval/timer/delay/timeout/debounce/sample", info=True),
 }
+
+
+def known_applies(k, line):
+    """a known finding covers a failing execution only under its recorded circumstances"""
+    if k.get("requires_overlap"):
+        # the subscribe call (S! .. S.) must overlap some producer call (h<name>!x .. h<name>.x)
+        payload = parse_exec(line)[4]
+        d = parse_pipe(payload)
+        if d is None:
+            return False
+        idx = {r: i for i, (tid, r, t) in enumerate(d["recs"]) if r in ("S!", "S.")}
+        if "S!" not in idx or "S." not in idx:
+            return False
+        open_calls = {}
+        for i, (tid, r, t) in enumerate(d["recs"]):
+            m = re.match(r"h(\w+)([!.])(.*)$", r)
+            if not m:
+                continue
+            if m.group(2) == "!":
+                open_calls[(tid, m.group(3))] = i
+            else:
+                a = open_calls.pop((tid, m.group(3)), None)
+                if a is not None and a < idx["S."] and i > idx["S!"]:
+                    return True
+        return False
+    return True
 
 
 def run_conc(prop, tier, seed, jobs, write_evidence, write_replay, load_known):
@@ -520,14 +618,17 @@ def run_conc(prop, tier, seed, jobs, write_evidence, write_replay, load_known):
                                    "what": what, "record": l[:6000]})
         violations.append((path, suffix))
     seen_what = set()
-    for l, msg in (bad_status + oracle_fail)[:50]:
+    printed_known = set()
+    for l, msg in (bad_status + oracle_fail)[:200]:
         key = re.sub(r"\d+", "#", msg)[:80]
-        if key in seen_what:
+        if key in seen_what and not any(k.get("clause") and k["clause"] in msg for k in known):
             continue
         seen_what.add(key)
-        k = next((k for k in known if k.get("clause") and k["clause"] in msg), None)
+        k = next((k for k in known if k.get("clause") and k["clause"] in msg and known_applies(k, l)), None)
         if k:
-            print("KNOWN-FINDING: property=%s %s" % (prop, k["what"]))
+            if k["id"] not in printed_known:
+                printed_known.add(k["id"])
+                print("KNOWN-FINDING: property=%s %s" % (prop, k["what"]))
             continue
         report(l, msg)
     if rejects and not violations:
